@@ -23,7 +23,9 @@
   path that runs into a scalar keeps it on exclusion; the items of a descended array are
   projected when they are documents, walked when they are arrays, and otherwise left out by an
   inclusion and kept by an exclusion (both paths); a projection made only of `$slice` fields
-  starts from the whole document.
+  starts from the whole document.  A `[skip, limit]` pair that holds a double is followed
+  through Python's `max` / `min` (`slicePairNum`): the cut works exactly when they leave int
+  bounds behind (`skip + limit` beyond the end, a negative skip at or before the first element).
 
   `_copy_field` is a deep copy; values are immutable here, so it is the identity.
 
@@ -238,6 +240,32 @@ def nonPositive : Val → Option Bool
   | .dbl m _ => some (decide (m ≤ 0))
   | _ => none
 
+/-- the pair `[skip, limit]` (its limit already found positive) when one of the two is no `int`.
+    The code computes `skip = max(0, len + skip)` for a negative skip, `last = min(skip + limit,
+    len)`, and cuts `xs[skip:last]`: the cut raises `TypeError` unless both bounds are ints.
+    A double can still leave int bounds behind: `max(0, x)` hands back its first argument, the
+    int `0`, when `len + skip ≤ 0`; `min(x, len)` hands back the int `len` when
+    `skip + limit > len`.  Anything that is no number fails in the comparison `skip < 0`. -/
+def slicePairNum (s l : Val) (xs : List Val) : R (List Val) :=
+  let n : Int := xs.length
+  let skip? : Option Int :=
+    match asPyInt s with
+    | some k => some (if k < 0 then (if n + k < 0 then 0 else n + k) else k)
+    | none =>
+      match s with
+      | .dbl m e => if m < 0 && m + n * (2 : Int) ^ e ≤ 0 then some 0 else none
+      | _ => none
+  match skip? with
+  | none => .error .typeErr
+  | some skip =>
+    match asPyInt l with
+    | some limit => .ok (projSlice xs skip (if skip + limit < n then skip + limit else n))
+    | none =>
+      match l with
+      | .dbl m e => if (n - skip) * (2 : Int) ^ e < m then .ok (projSlice xs skip n)
+                    else .error .typeErr
+      | _ => .error .typeErr
+
 /-- the `$slice` branch of `_apply_projection_operators` on the list `xs` -/
 def sliceOp (sv : Val) (xs : List Val) : R (List Val) :=
   let n : Int := xs.length
@@ -252,7 +280,7 @@ def sliceOp (sv : Val) (xs : List Val) : R (List Val) :=
         let skip := if skip < 0 then (if n + skip < 0 then 0 else n + skip) else skip
         let last := if skip + limit < n then skip + limit else n
         .ok (projSlice xs skip last)
-      | _, _ => .error .typeErr
+      | _, _ => slicePairNum s l xs
   | .arr _ => .error .opFail
   | sv =>
     match asPyInt sv with
